@@ -26,7 +26,7 @@ What the classes are for (a defect of the pool could hinge on each of them):
                      long / panicking tasks, pauses between segments (pause and rendezvous in ONE script), up to ~8N tasks
 """
 
-ALPHABET = 'ielbpw'
+ALPHABET = 'ielbpwz'   # z: the submitter sleeps 300 ms (not a task)
 
 def legal(n, kinds):
     nb = 0
@@ -103,6 +103,10 @@ def fixed(tier):
         idle = [(n, 50, 1) for n in range(2, 9)] + [(2, 100, 1), (8, 100, 1), (4, 50, 3), (8, 50, 7)]
     for n, k, busy_workers in idle:
         add('idle-period', n, ('l' * busy_workers + 'w') * k + 'b' * n, False)
+    # the WHOLE pool idle for 0.3 .. 0.9 s (`w` then `z`): before the first job, between bursts, after panics - then the rendezvous
+    for n, kinds in ([(2, 'z' + 'bb'), (3, 'i' * 3 + 'wz' + 'b' * 3), (4, 'b' * 4 + 'wzz' + 'b' * 4), (8, 'p' * 8 + 'wz' + 'b' * 8), (1, 'iwzwzb')] if quick else
+                     [(n, pre + 'w' + 'z' * k + 'b' * n) for n in range(1, 9) for pre in ('', 'i' * n, 'b' * n, 'p' * n, 'l' * n) for k in (1, 3)]):
+        add('whole-pool-idle', n, kinds, False)
     # --- large-N
     big = [9, 16, 33, 64] if quick else [9, 10, 11, 12, 13, 15, 16, 17, 20, 24, 31, 32, 33, 48, 63, 64]
     for j, n in enumerate(big):
